@@ -7,6 +7,12 @@ spec:      spec/ArMemberRef.tla  reference layer: the index of an archive + one 
                                  or per-member file position); TLC checks Refines + SameResult,
                                  Isolation, IndexExact in a closed state space
            spec/TraceArMember.tla  trace validation against the reference actions
+           spec/ArMemberProc.tla process-level layer (files: path -> content, ArFile objects with the
+                                 content snapshot of their file object, Open / RewritePath / Read /
+                                 Close): a read through an object whose path was not rewritten since
+                                 it was built returns that archive's bytes, whatever the process
+                                 opened under the same name before; negative control
+                                 SharedHandlePerPath = TRUE (one memoised file object per path name)
 binding:   (a) spec -> code: the complete reference LTS emitted by TLC (every archive of <= 2
                members x <= 2/3 data cells over {NL, x}, every call, expected cells and positions)
                is replayed on real archives written by the harness, through
@@ -14,6 +20,13 @@ binding:   (a) spec -> code: the complete reference LTS emitted by TLC (every ar
                interleaving the members, (thorough) all paths of depth 2; the INDEX cases emitted
                by the index configuration (<= 3 members, duplicate names, sizes 0/odd/even) are
                replayed on getnames/getmembers/getmember;
+           (a') the complete LTS of ArMemberProc + walks are replayed on real files: archives opened by
+               name and through a real file object on the same path, the path rewritten in place / by
+               os.replace while earlier objects are alive, closed or unclosed; reads judged exactly
+               where TLC says (object not older than the last rewrite), others executed unjudged.
+               All by-name legs moreover RE-USE five path names for all archives of a run (archive k+1
+               is written over archive k, alternately in place and by rename) and leave two of three
+               by-name sessions unclosed and alive; recorded cases carry the history of their path;
            (b) code -> spec: random histories on archives of <= 5 members with <= 64 data bytes
                (and on archives written by /usr/bin/ar in the thorough tier) are recorded and
                validated by TLC, which recomputes every returned byte and position from the
@@ -24,7 +37,8 @@ oracles:   expected values come from TLC (EDGE/INDEX lines, trace validation); a
            machinery failure (the specification would be wrong), not a verdict.
 negative controls at specification level (run in every check): ClampReadline = FALSE (readline
            as before commit f810caf) must violate Refines/SameResult; thorough also PadOdd = FALSE
-           (IndexExact) and SeekFirst = FALSE (Refines/SameResult/Isolation).
+           (IndexExact) and SeekFirst = FALSE (Refines/SameResult/Isolation); SharedHandlePerPath =
+           TRUE must violate FreshSeesOwn (every run).
 domain (DESIGN D4): read() / read(n) with n >= 1 or n < 0 (read(0) excluded), readline(n) any n,
            readlines() without hint, seek(off, whence) with a non-negative target; the return
            value of seek() is not compared (ArMember.seek returns None like Python 2 files).
@@ -39,8 +53,8 @@ from lts import LTS, skey, strip
 
 MANIFEST = dict(
     technique="TLA+ spec (ArMemberRef reference with io.BytesIO semantics + ArMember implementation layer over a flat cell archive) model-checked by TLC; complete reference LTS and index cases replayed on real archives through ArFile(fileobj) and ArFile(filename) with io.BytesIO as second oracle; recorded histories validated by TLC (TraceArMember)",
-    text="TLC explores the closed state space of the implementation-level model of arfile.py (archive as one flat cell sequence with headers and pad bytes, index walk, per-member offset/end/cur, one shared or per-member file position) for every archive of up to 2 members with up to 3 data bytes over {newline, other} and checks in every reachable state / on every transition that it refines independent BytesIO-like files (same cells returned, same positions), that no cell outside the member is returned and that the member table is exact, i.e. for interleaved histories of any length over that alphabet. The binding is two-way: every transition of the reference LTS, random interleaved walks and the emitted index cases (duplicate names, empty/odd/even sizes, 0 members) are replayed on real archives in both opening modes with all members' tell() compared after each call, and random histories on larger archives (5 members, 64 bytes, archives written by GNU ar) are validated by TLC against the same actions.",
-    note="Small-scope: model archives have <= 2 members x <= 3 cells (index: <= 3 members); concretization of cells to bytes (1-5 bytes per cell, arbitrary non-newline bytes) is sampled. Domain D4: read(0) excluded, non-negative seek targets, readlines() without hint; seek()'s return value is not compared. Trusted: TLC, the harness' ar writer, io.BytesIO. Spec-level negative controls (ClampReadline/PadOdd/SeekFirst = FALSE) and corrupted control traces are required to fail in every run.",
+    text="TLC explores the closed state space of the implementation-level model of arfile.py (archive as one flat cell sequence with headers and pad bytes, index walk, per-member offset/end/cur, one shared or per-member file position) for every archive of up to 2 members with up to 3 data bytes over {newline, other} and checks in every reachable state / on every transition that it refines independent BytesIO-like files (same cells returned, same positions), that no cell outside the member is returned and that the member table is exact, i.e. for interleaved histories of any length over that alphabet. The binding is two-way: every transition of the reference LTS, random interleaved walks and the emitted index cases (duplicate names, empty/odd/even sizes, 0 members) are replayed on real archives in both opening modes with all members' tell() compared after each call, and random histories on larger archives (5 members, 64 bytes, archives written by GNU ar) are validated by TLC against the same actions. A process-level model (ArMemberProc: path contents, ArFile objects, rewrite of a path in place or by rename, close) is model-checked and its complete LTS replayed on real files, and all by-name legs re-use a handful of path names with earlier archives' members left unclosed, so that what an archive opened by name returns cannot silently depend on what the process opened under that name before.",
+    note="Small-scope: model archives have <= 2 members x <= 3 cells (index: <= 3 members); concretization of cells to bytes (1-5 bytes per cell, arbitrary non-newline bytes) is sampled. Domain D4: read(0) excluded, non-negative seek targets, readlines() without hint; seek()'s return value is not compared. Trusted: TLC, the harness' ar writer, io.BytesIO. Members of an archive whose file was replaced underneath them are unspecified (executed, not judged). Spec-level negative controls (ClampReadline/PadOdd/SeekFirst = FALSE, SharedHandlePerPath = TRUE) and corrupted control traces are required to fail in every run.",
     design="5 (C06)")
 
 AR_BIN = "/usr/bin/ar"
@@ -97,42 +111,85 @@ def build_ar(members, style="gnu"):
     return b"".join(out)
 
 
+def write_file(path, blob, kind):
+    """store blob under path: 'inplace' writes over the existing file (same inode), 'replace' writes a
+    new file and renames it into place"""
+    if kind == "replace":
+        with open(path + ".new", "wb") as f:
+            f.write(blob)
+        os.replace(path + ".new", path)
+    else:
+        with open(path, "wb") as f:
+            f.write(blob)
+
+
+class PathPool:
+    """The by-name legs deliberately REUSE a few path names for all archives of a run: archive k+1 is
+    written over the path of archive k (alternately in place and by os.replace of a new file), while
+    ArFile objects of earlier archives of that path may still be alive with unclosed members (see
+    Session.finish).  What a new ArFile(filename=path) reads must not depend on that history."""
+
+    def __init__(self, ctx, n=5):
+        self.paths = [os.path.join(ctx.work, "pool%d.ar" % i) for i in range(n)]
+        self.owner = [None] * n
+        self.next = 0
+        self.writes = 0
+
+    def ensure(self, arch):
+        if arch.slot is not None and self.owner[arch.slot] is arch:
+            return self.paths[arch.slot]
+        i = self.next
+        self.next = (i + 1) % len(self.paths)
+        prev = self.owner[i]
+        kind = "replace" if self.writes % 2 else "inplace"
+        self.writes += 1
+        write_file(self.paths[i], arch.blob, kind)
+        if prev is not None:
+            prev.slot = None
+            arch.history = (prev.history + [[prev.blob, kind]])[-3:]
+        self.owner[i] = arch
+        arch.slot = i
+        return self.paths[i]
+
+
+def pool(ctx):
+    if not hasattr(ctx, "_c06_pool"):
+        ctx._c06_pool = PathPool(ctx)
+    return ctx._c06_pool
+
+
 class Arch:
-    """a concrete archive: blob + what was written into it; written to disk lazily for by-name mode"""
-    _n = 0
+    """a concrete archive: blob + what was written into it. For by-name mode it is stored under one
+    of the re-used pool paths (or under `path` when the caller manages the file itself)."""
 
     def __init__(self, members, style="gnu", blob=None, path=None):
         self.members = members
         self.style = style
         self.blob = build_ar(members, style) if blob is None else blob
         self.path = path
-        self.own_file = False
+        self.slot = None
+        self.history = []            # [blob, how it was replaced] of the last archives stored under the
+                                     # same path before this one (part of a recorded case)
 
     def file(self, ctx):
-        if self.path is None:
-            Arch._n += 1
-            self.path = os.path.join(ctx.work, "a%06d.ar" % Arch._n)
-            with open(self.path, "wb") as f:
-                f.write(self.blob)
-            self.own_file = True
-        return self.path
+        if self.path is not None:
+            return self.path
+        return pool(ctx).ensure(self)
 
     def drop(self):
-        if self.path and self.own_file:
-            try:
-                os.unlink(self.path)
-            except OSError:
-                pass
-            self.path = None
-            self.own_file = False
+        pass                         # pool paths are re-used on purpose; ctx.work is removed at exit
 
     def to_json(self):
-        return {"blob": self.blob, "style": self.style,
-                "members": [dict(m) for m in self.members]}
+        j = {"blob": self.blob, "style": self.style, "members": [dict(m) for m in self.members]}
+        if self.history:
+            j["history"] = [list(h) for h in self.history]
+        return j
 
     @classmethod
     def from_json(cls, j):
-        return cls(j["members"], j["style"], blob=j["blob"])
+        a = cls(j["members"], j["style"], blob=j["blob"])
+        a.history = [list(h) for h in j.get("history", [])]
+        return a
 
 
 # ------------------------------------------------------------------ driving the real objects
@@ -191,18 +248,26 @@ def call_str(m, op, args):
 
 
 class Session:
-    """an opened archive + one io.BytesIO per member as the reference library"""
+    """an opened archive + one io.BytesIO per member as the reference library.
+    mode: "shared" = ArFile(fileobj=io.BytesIO), "byname" = ArFile(filename=path),
+          "fileobj" = ArFile(fileobj=open(path, "rb")) (a real file object on the same path)"""
+    count = 0
 
-    def __init__(self, ctx, arch, mode):
+    def __init__(self, ctx, arch, mode, path=None):
         from debian.arfile import ArFile
         self.error = None
         self.members = []
         self.ar = None
+        self.mode = mode
+        self.fh = None
         try:
             if mode == "shared":
                 self.ar = ArFile(fileobj=io.BytesIO(arch.blob))
+            elif mode == "fileobj":
+                self.fh = open(path or arch.file(ctx), "rb")
+                self.ar = ArFile(fileobj=self.fh)
             else:
-                self.ar = ArFile(filename=arch.file(ctx))
+                self.ar = ArFile(filename=path or arch.file(ctx))
             self.members = list(self.ar.getmembers())
         except Exception as e:
             self.error = "opening the archive raised %s: %s" % (type(e).__name__, e)
@@ -217,6 +282,21 @@ class Session:
                 m.close()
             except Exception:
                 pass
+        if self.fh is not None:
+            self.fh.close()
+
+    def finish(self, ctx):
+        """end of a replay: every third by-name session closes its members; the others stay alive
+        with UNCLOSED members (the last three are kept referenced) while later archives are written
+        over the same path and opened by name again"""
+        Session.count += 1
+        if self.mode != "byname" or Session.count % 3 == 0:
+            self.close()
+            return
+        if not hasattr(ctx, "_c06_alive"):
+            import collections
+            ctx._c06_alive = collections.deque(maxlen=3)
+        ctx._c06_alive.append(self)
 
     def step(self, m, op, args, exp=None):
         """call on member m (0-based); exp = TLC's expectation {"ret", "n", "tell"} or None.
@@ -271,7 +351,7 @@ def run_ops(ctx, arch, mode, ops, unspecified=()):
                 ctx.drift("unspecified call %s raised %s" % (what, type(e).__name__))
         return None
     finally:
-        s.close()
+        s.finish(ctx)
 
 
 # ------------------------------------------------------------------ concretization of model archives
@@ -368,7 +448,7 @@ def check_index(ctx, arch, mode, exp, names_of):
             return "index access raised %s: %s" % (type(e).__name__, e)
         return None
     finally:
-        s.close()
+        s.finish(ctx)
 
 
 # ------------------------------------------------------------------ trace recording (code -> spec)
@@ -395,6 +475,28 @@ def random_arch(rng, maxmem=5, maxlen=64):
     return Arch(members, style)
 
 
+def random_call(rng, datas, tells):
+    """one in-domain call (D4) given the current positions of the members"""
+    m = rng.randrange(len(datas))
+    L = len(datas[m])
+    p = tells[m]
+    op = rng.choice(["read", "readn", "readn", "readline", "readline", "readlinen", "readlinen", "readlines",
+                     "seek", "seek", "seek", "tell"])
+    if op == "readn":
+        args = [rng.choice([-1, 1, 1, 2, 3, rng.randrange(1, L + 3), L, L + 1, -7] if L else [-1, 1, 2])]
+        if args[0] == 0:
+            args = [1]
+    elif op == "readlinen":
+        args = [rng.choice([-1, 0, 1, 2, 3, rng.randrange(0, L + 3), L, L + 1, -3])]
+    elif op == "seek":
+        wh = rng.randrange(3)
+        t = rng.choice([0, rng.randrange(L + 1), rng.randrange(L + 1), L, L + 1, L + 5])
+        args = [t - (0 if wh == 0 else p if wh == 1 else L), wh]
+    else:
+        args = []
+    return (m, op, args)
+
+
 def random_calls(rng, datas, n):
     """in-domain calls (D4); relative seeks need the current position: tracked with io.BytesIO"""
     ref = [io.BytesIO(d) for d in datas]
@@ -402,23 +504,7 @@ def random_calls(rng, datas, n):
     if not datas:
         return calls
     for _ in range(n):
-        m = rng.randrange(len(datas))
-        L = len(datas[m])
-        p = ref[m].tell()
-        op = rng.choice(["read", "readn", "readn", "readline", "readline", "readlinen", "readlinen", "readlines",
-                         "seek", "seek", "seek", "tell"])
-        if op == "readn":
-            args = [rng.choice([-1, 1, 1, 2, 3, rng.randrange(1, L + 3), L, L + 1, -7] if L else [-1, 1, 2])]
-            if args[0] == 0:
-                args = [1]
-        elif op == "readlinen":
-            args = [rng.choice([-1, 0, 1, 2, 3, rng.randrange(0, L + 3), L, L + 1, -3])]
-        elif op == "seek":
-            wh = rng.randrange(3)
-            t = rng.choice([0, rng.randrange(L + 1), rng.randrange(L + 1), L, L + 1, L + 5])
-            args = [t - (0 if wh == 0 else p if wh == 1 else L), wh]
-        else:
-            args = []
+        m, op, args = random_call(rng, datas, [r.tell() for r in ref])
         do_call(ref[m], op, args)
         calls.append((m, op, args))
     return calls
@@ -459,7 +545,7 @@ def record(ctx, arch, mode, calls):
                                "n": obs["n"], "tell": t if isinstance(t, int) else -1,
                                "exc": obs["exc"] or ("" if isinstance(t, int) else str(t))})
     finally:
-        s.close()
+        s.finish(ctx)
     return {"mem": spec_mem, "events": events}, oracle_msg
 
 
@@ -594,7 +680,152 @@ def ar_binary_archive(ctx, rng, idx):
         raise core.MachineryError("ar failed: %s" % p.stderr)
     with open(path, "rb") as f:
         blob = f.read()
-    return Arch(members, "gnu", blob=blob, path=path)
+    return Arch(members, "gnu", blob=blob)      # by-name mode stores the blob under a re-used pool path
+
+
+# ------------------------------------------------------------------ process-level layer (ArMemberProc)
+
+PROC_ALPHABETS = {1: [b"abc", b"XYZ", b"159"], 2: [b"def", b"UVW", b"260"]}
+
+
+def proc_versions(rng, paths, maxversion):
+    """(path, version) -> archive; successive archives of a path use disjoint byte alphabets (a stale
+    read can never look right) and, half of the time, the same layout (a stale read stays in bounds)"""
+    out = {}
+    for p in paths:
+        sizes = [rng.randrange(1, 24) for _ in range(rng.randrange(1, 4))]
+        for v in range(1, maxversion + 1):
+            if rng.random() < 0.5:
+                sizes = [rng.randrange(1, 24) for _ in range(rng.randrange(1, 4))]
+            alpha = PROC_ALPHABETS[p][(v - 1) % 3]
+            members = []
+            for i, n in enumerate(sizes):
+                m = rand_meta(rng)
+                data = bytes(10 if rng.random() < 0.2 else alpha[rng.randrange(len(alpha))] for _ in range(n))
+                m.update(name=NAME_POOL[i], data=data)
+                members.append(m)
+            out[(p, v)] = Arch(members, rng.choice(["gnu", "bsd"]))
+    return out
+
+
+def proc_replay(ctx, edges, versions, script=None, rng=None):
+    """replay one behaviour of ArMemberProc on real files. edges: EDGE records of TLC (op, args, res);
+    versions: (path, version) -> Arch. A judged read (TLC: res.judged, expected content res.content)
+    runs calls that are compared with io.BytesIO over the data of THAT content; reads through objects
+    older than the last rewrite of their path are executed but not judged. `script` = the concrete calls
+    of every read step (recorded on the first run, re-used by --replay). Returns (message, script)."""
+    record_script = script is None
+    script = [] if record_script else [list(x) for x in script]
+    si = 0
+    paths = sorted({p for (p, _) in versions})
+    fname = {p: os.path.join(ctx.work, "proc%d.ar" % p) for p in paths}
+    cur = {}
+    for p in paths:
+        write_file(fname[p], versions[(p, 1)].blob, "inplace" if os.path.exists(fname[p]) and p % 2 else "replace")
+        cur[p] = 1
+    objs = []
+    try:
+        for k, e in enumerate(edges):
+            op, a = e["op"], e["args"]
+            if op == "open":
+                p, byname = a
+                s = Session(ctx, versions[(p, cur[p])], "byname" if byname else "fileobj", path=fname[p])
+                s.born = (p, cur[p])
+                objs.append(s)
+                if s.error:
+                    return "step %d open(%s): %s" % (k + 1, "by name" if byname else "by file object", s.error), script
+            elif op == "rewrite":
+                p, kind = a
+                cur[p] += 1
+                write_file(fname[p], versions[(p, cur[p])].blob, kind)
+            elif op == "close":
+                objs[a[0] - 1].close()
+            elif op == "read":
+                s = objs[a[0] - 1]
+                judged = e["res"]["judged"]
+                if judged and (s.born[1] != e["res"]["content"] or cur[s.born[0]] != s.born[1]):
+                    raise core.MachineryError("process-level replay out of step with the model at step %d" % (k + 1))
+                calls = None if record_script else script[si]
+                si += 1
+                done = []
+                if record_script:
+                    script.append(done)
+                    m0 = rng.randrange(len(s.datas))
+                for ci in range(4 if record_script else len(calls)):
+                    if not record_script:
+                        c = calls[ci]
+                    elif ci == 0:
+                        c = (m0, "seek", [0, 0])
+                    elif ci == 1:
+                        c = (m0, rng.choice(["read", "readline", "readlines"]), [])
+                    else:        # generated against the live reference positions
+                        c = random_call(rng, s.datas, [o.tell() if judged else 0 for o in s.oracles])
+                    m, cop, cargs = c
+                    done.append([m, cop, list(cargs)])
+                    if not judged:
+                        do_call(s.members[m], cop, cargs)          # unspecified: executed, not judged
+                        continue
+                    msg, _, _ = s.step(m, cop, cargs)
+                    if msg:
+                        hist = " ".join("%s%s" % (x["op"], tuple(x["args"])) for x in edges[:k + 1])
+                        return ("process history [%s]: the object was built from archive #%d of its path and the path "
+                                "still holds it, but %s" % (hist, s.born[1], msg)), script
+        return None, script
+    finally:
+        # every behaviour starts from a clean process state (members closed), so that a recorded case
+        # reproduces on its own; leftovers across archives are the business of the other legs
+        for s in objs:
+            s.close()
+
+
+def proc_leg(ctx, quick, rng):
+    cfg = "MC_ArMemberProc_lts_quick.cfg" if quick else "MC_ArMemberProc_lts.cfg"
+    r = ctx.tlc_must_hold("ArMemberProc", cfg, workers=1, want_tags={"EDGE"})
+    text = open(os.path.join(core.SPEC, "MC_ArMemberProc_lts_quick.cfg")).read()
+    if "SharedHandlePerPath = FALSE" not in text:
+        raise core.MachineryError("constant SharedHandlePerPath not found")
+    nc = ctx.tlc("ArMemberProc", text.replace("SharedHandlePerPath = FALSE", "SharedHandlePerPath = TRUE")
+                 .replace("Emit = TRUE", "Emit = FALSE").replace("INVARIANT SnapNotOlder\n", ""), count=False, workers=1)
+    if nc.violated != "FreshSeesOwn":
+        raise core.MachineryError("spec-level negative control SharedHandlePerPath = TRUE: expected FreshSeesOwn violated, TLC says %r" % (nc.violated,))
+    ctx.extra.setdefault("spec_negative_controls", {})["SharedHandlePerPath=TRUE"] = nc.violated
+    edges = r.printed.get("EDGE", [])
+    edges.sort(key=lambda e: (skey(e["from"]), e["op"], skey(e["args"])))
+    if not edges:
+        raise core.MachineryError("no EDGE lines from ArMemberProc")
+    init = {"files": edges[0]["from"]["files"], "objs": []}
+    npaths = len(init["files"])
+    init["files"] = [1] * npaths
+    g = LTS(edges, init)
+    paths = g.paths()
+    maxv = max(max(e["to"]["files"]) for e in g.edges)
+    per_op = {}
+    n = 0
+    versions = None
+    todo = [(paths[e["_f"]] + [e], "transition") for e in g.edges]
+    nw = 60 if quick else 1500
+    for w in range(nw):
+        todo.append((g.walk(rng, g.init, 12, weight=lambda x: 1 if x["op"] == "open" else 2), "walk"))
+    for pi, (path, what) in enumerate(todo):
+        if len(ctx.violations) >= 5:
+            break
+        if versions is None or pi % 25 == 0:
+            versions = proc_versions(rng, range(1, npaths + 1), maxv)
+        msg, script = proc_replay(ctx, path, versions, rng=rng)
+        n += 1
+        for e in path[-1:]:
+            per_op[e["op"]] = per_op.get(e["op"], 0) + 1
+        ctx.case_seen(("proc", what, pi), True)
+        if msg:
+            ctx.violation({"kind": "proc", "edges": [strip(e) for e in path], "script": script,
+                           "versions": [[p, v, a.to_json()] for (p, v), a in sorted(versions.items())]},
+                          "%s of the process-level model: %s" % (what, msg))
+    ctx.extra["process_layer"] = {"states": len(g.states), "edges": len(g.edges), "behaviours_replayed": n,
+                                  "last_action": per_op, "paths": npaths, "max_version": maxv}
+    rd = [e for e in g.edges if e["op"] == "read" and e["res"]["judged"] and len(e["from"]["objs"]) > 1]
+    if rd:
+        ctx.sample("process-level edge: " + json.dumps(strip(rd[len(rd) // 2]), separators=(",", ":")))
+    return n
 
 
 # ------------------------------------------------------------------ the check
@@ -633,17 +864,47 @@ def run(ctx):
         "domain D4: read()/read(n>=1 or n<0), readline(any n), readlines() without hint, seek to non-negative targets (whence 0/1/2); read(0) excluded; the return value of seek() is not compared",
         "each model cell is concretized to 1-5 bytes (sampled, seeded); member names are ASCII and fit the 16-byte header field",
         "trusted: TLC, the harness' ar writer, io.BytesIO (second oracle), os.stat for archives written by ar(1)",
+        "process level: members of an ArFile whose path was rewritten after the object was built are unspecified (executed, not judged); every object built after the last rewrite is judged, whatever was opened or left unclosed before",
     ]
     # 1. design level: the implementation-layer model refines the reference (any history), index exact
-    #    (quick: shared file object at 2 data cells + by-name mode at 1 data cell; thorough: both at 3)
-    r_impl = ctx.tlc_must_hold("ArMember", "MC_ArMember_quick.cfg" if quick else "MC_ArMember.cfg", workers=8)
-    impl_states = r_impl.distinct
-    if quick:
-        impl_states += ctx.tlc_must_hold("ArMember", "MC_ArMember_quick_byname.cfg", workers=4).distinct
-    negative_control(ctx, "MC_ArMember_quick.cfg", "ClampReadline", ("Refines", "SameResult"))
-    if not quick:
-        negative_control(ctx, "MC_ArMember_quick.cfg", "PadOdd", ("IndexExact",))
-        negative_control(ctx, "MC_ArMember_quick.cfg", "SeekFirst", ("Refines", "SameResult", "Isolation"))
+    #    (quick: shared file object at 2 data cells + by-name mode at 1 data cell; thorough: both at 3).
+    #    These runs do not feed the replay, so they proceed in a background thread while the LTSs are
+    #    emitted and replayed; a failure is re-raised when the thread is joined at the end of run().
+    design = {}
+
+    def design_runs():
+        try:
+            r = ctx.tlc_must_hold("ArMember", "MC_ArMember_quick.cfg" if quick else "MC_ArMember.cfg", workers=8)
+            design["states"] = r.distinct
+            if quick:
+                design["states"] += ctx.tlc_must_hold("ArMember", "MC_ArMember_quick_byname.cfg", workers=4).distinct
+            negative_control(ctx, "MC_ArMember_quick.cfg", "ClampReadline", ("Refines", "SameResult"))
+            if not quick:
+                negative_control(ctx, "MC_ArMember_quick.cfg", "PadOdd", ("IndexExact",))
+                negative_control(ctx, "MC_ArMember_quick.cfg", "SeekFirst", ("Refines", "SameResult", "Isolation"))
+                ctx.tlc_must_hold("ArMemberProc", "MC_ArMemberProc.cfg", workers=4)
+        except BaseException as e:      # re-raised by join_design()
+            design["error"] = e
+
+    import threading
+    th = threading.Thread(target=design_runs)
+    th.start()
+
+    def join_design():
+        th.join()
+        if "error" in design:
+            raise design["error"]
+        ctx.extra["lts"]["impl_layer_states"] = design["states"]
+
+    try:
+        run_binding(ctx, quick, rng)
+    except BaseException:
+        th.join()
+        raise
+    join_design()
+
+
+def run_binding(ctx, quick, rng):
     # 2. index cases (and IndexExact for <= 3 members with duplicate names)
     r_idx = ctx.tlc_must_hold("ArMember", "MC_ArMember_index.cfg", workers=1, want_tags={"INDEX"})
     # 3. reference LTS, complete
@@ -656,7 +917,7 @@ def run(ctx):
         for e in g.edges:
             ops_count[e["op"]] = ops_count.get(e["op"], 0) + 1
     ctx.extra["lts"] = {"archives": len(archives), "states": sum(len(g.states) for _, g in archives.values()),
-                        "edges": nedges, "impl_layer_states": impl_states, "index_walk_states": r_idx.distinct}
+                        "edges": nedges, "index_walk_states": r_idx.distinct}
     ctx.extra["edges_per_action"] = ops_count
     ctx.extra["model_constants"] = {"Bytes": [10, 120], "MaxMembers": 2, "MaxData": 2 if quick else 3,
                                     "RdSizes": [-1, 1, 2] + ([] if quick else [4]),
@@ -708,6 +969,10 @@ def run(ctx):
     if idx_cases:
         c = idx_cases[len(idx_cases) * 2 // 3]
         ctx.sample("index case: " + json.dumps(c, separators=(",", ":")))
+
+    # 2''. process-level layer: what a by-name archive reads must not depend on what the process
+    #      opened under the same path before (ArMemberProc: complete LTS + walks replayed on real files)
+    n_replayed += proc_leg(ctx, quick, rng)
 
     # 3a. every transition of the LTS, both opening modes, canonical + random concretizations
     nconc = 2 if quick else 3
@@ -814,7 +1079,30 @@ def run(ctx):
 
 
 def replay(ctx, case):
+    if case["kind"] == "proc":
+        versions = {(p, v): Arch.from_json(a) for p, v, a in case["versions"]}
+        msg, _ = proc_replay(ctx, case["edges"], versions, script=case["script"])
+        return msg
     arch = Arch.from_json(case["arch"])
+    keep = None
+    if case.get("mode") == "byname":
+        # re-create the history of the path: the archives stored there before, each opened by name,
+        # its members read and left unclosed, then replaced the way it was replaced in the run
+        arch.path = os.path.join(ctx.work, "replay.ar")
+        keep = []
+        kind = "inplace"
+        for blob, nxt in arch.history:
+            write_file(arch.path, blob, kind)
+            kind = nxt
+            try:
+                from debian.arfile import ArFile
+                ms = list(ArFile(filename=arch.path).getmembers())
+                keep.append(ms)
+                for m in ms:
+                    m.read()
+            except Exception:
+                pass
+        write_file(arch.path, arch.blob, kind)
     try:
         if case["kind"] == "ops":
             return run_ops(ctx, arch, case["mode"], case["ops"])
@@ -831,4 +1119,4 @@ def replay(ctx, case):
             return None
         return "unknown case kind"
     finally:
-        arch.drop()
+        del keep
